@@ -206,6 +206,12 @@ func (r *Run) Judge(check string, c any, v Verdict) bool {
 	if v.OK {
 		return false
 	}
+	if v.Sig == "harness" || strings.HasPrefix(v.Sig, "harness:") {
+		// trouble inside the harness itself (a listener that cannot bind, a reference that cannot encode):
+		// never a verdict on gokrb5
+		r.Inconclusive("harness error in check %q: %s", check, firstLines(v.Msg, 3))
+		return false
+	}
 	r.mu.Lock()
 	defer r.mu.Unlock()
 	if k, ok := r.known[v.Sig]; ok {
